@@ -77,45 +77,35 @@ class _WallBudgetExceeded(BaseException):
 
 
 class _WallBudget:
-    """Nested SIGALRM budget: the worker's own per-case watchdog (also ITIMER_REAL) is restored on exit."""
+    """CPU-time budget for one run (ITIMER_VIRTUAL / SIGVTALRM): independent of the machine's load and of the
+    worker's own wall-clock watchdog (ITIMER_REAL / SIGALRM), which stays untouched."""
 
     def __init__(self, seconds: float):
         self.seconds = seconds
         self.prev_handler = None
-        self.prev_left = 0.0
-        self.t0 = 0.0
         self.active = False
 
     def __enter__(self):
         import signal
         import threading
-        import time
 
         if threading.current_thread() is not threading.main_thread():
             return self
-        self.t0 = time.monotonic()
-        self.prev_left, _ = signal.getitimer(signal.ITIMER_REAL)
-        if self.prev_left and self.prev_left <= self.seconds:
-            return self  # the outer watchdog fires first anyway
 
         def fire(signum, frame):
             raise _WallBudgetExceeded()
 
-        self.prev_handler = signal.signal(signal.SIGALRM, fire)
-        signal.setitimer(signal.ITIMER_REAL, self.seconds)
+        self.prev_handler = signal.signal(signal.SIGVTALRM, fire)
+        signal.setitimer(signal.ITIMER_VIRTUAL, self.seconds)
         self.active = True
         return self
 
     def __exit__(self, *exc):
         if self.active:
             import signal
-            import time
 
-            signal.setitimer(signal.ITIMER_REAL, 0)
-            signal.signal(signal.SIGALRM, self.prev_handler or signal.SIG_DFL)
-            if self.prev_left:
-                left = max(0.05, self.prev_left - (time.monotonic() - self.t0))
-                signal.setitimer(signal.ITIMER_REAL, left)
+            signal.setitimer(signal.ITIMER_VIRTUAL, 0)
+            signal.signal(signal.SIGVTALRM, self.prev_handler or signal.SIG_DFL)
         return False
 
 _COV = None
@@ -178,7 +168,7 @@ def run_scenario(
             status = probe.run(sc.sim)
         except _WallBudgetExceeded:
             # CPU-bound work inside single deliveries (a 1 ns slide over a 0.3 s window ...): no verdict
-            res.inconclusive = f"wall budget {CASE_WALL_BUDGET_S}s exceeded in {name} (mutations: {applied})"[:300]
+            res.inconclusive = f"CPU budget {CASE_WALL_BUDGET_S}s exceeded in {name} (mutations: {applied})"[:300]
             res.count("wall_budget_exceeded")
             return res
         except Exception as exc:  # noqa: BLE001
